@@ -9,8 +9,8 @@ SIM_NOTE = ("Trusted base: SimNode's model of lightningd (DESIGN 2.2 assumptions
 
 # id -> (engine, category, technique, text, note, has_thorough, built)
 CHECKS = {
- "C01": ("sim", "exploration", "online monitor over seeded hostile simulations of the real manager/store/provider (runtime monitoring)",
-         "R01a SHA256(key)==htlc hash, R01b key comes from a complete part or the Succeeded record, R01c no pay while holding an HTLC with that invoice but another hash; evaluated on every Resolve / pay across 24k (quick) or 1M (thorough) runs with hash-mismatch-heavy plans, crashes and restarts. Held on the executions explored, not a proof.", SIM_NOTE),
+ "C01": ("sim+e2e", "exploration", "online monitor over seeded hostile simulations of the real manager/store/provider; real binary under a fake lightningd that answers an RPC of another payment late (runtime monitoring)",
+         "R01a SHA256(key)==htlc hash, R01b key comes from a complete part or the Succeeded record, R01c no pay while holding an HTLC with that invoice but another hash; evaluated on every Resolve / pay across 24k (quick) or 1M (thorough) runs with hash-mismatch-heavy plans, crashes and restarts; plus E2E sessions through the real rpc.rs in which a waitsendpay of payment H1 is answered late while payment H2 waits (nothing of H1 may reach H2). Held on the executions explored, not a proof.", SIM_NOTE),
  "C02": ("sim+e2e", "fault_enumeration", "online monitor at every Fail emission against node ground truth; random hostile schedules (incl. deliveries preempted at their first awaits while a second event is handled) plus enumeration of every crash position / single write fault in canonical scenarios",
          "R02: no trampoline HTLC is failed while a part is pending/complete or pay is running, judged at the instant of emission against SimNode; crashes, restarts, F1 write faults (all tiers), F2 read faults (thorough); plus enumeration of one crash / one write fault at every position of canonical 1-2 HTLC payments for every pay outcome; plus an E2E session through the real rpc.rs in which the pay command runs for 33 s (35/35/65 s thorough) and the HTLC must stay held.", SIM_NOTE + " E2E part trusts the fake lightningd."),
  "C03": ("sim", "exploration", "online monitor at every pay RPC against the set of delivered-unanswered HTLCs (runtime monitoring)",
@@ -37,8 +37,8 @@ CHECKS = {
          "R14a B's RPC sequence, replies, answers identical and not delayed; R14b table lock free at every quiescence while A is frozen; R14c every datastore key names an offered hash and calls for B never mention A; R14d an HTLC of another hash carrying B's invoice is never pooled into B; 11 freeze points x 92 B scenarios (x12 seeds thorough); plus E2E isolation sessions through the real rpc.rs (payments stuck in pay / waitsendpay must not delay another hash).", SIM_NOTE + " E2E part trusts the fake lightningd; wall clock only via the ping rule."),
  "C15": ("prov", "fault_enumeration", "depth-first enumeration of all interleavings of RPC effects with part resolutions against the real wait_payment; oracle at the instant of return",
          "R15a preimage only from a complete part; R15b 'none' only if no part pending/complete at return; R15c documented part-level codes never abort the wait. Exhaustive for <=3 parts in every status mix (4 pending in thorough) x codes 202/203/204/208/209.", "Trusted base: SimNode sendpay semantics (assumptions 1-4); effect and reply fused."),
- "C16": ("prov", "fault_enumeration", "depth-first enumeration of pay outcomes x part configurations x resolution orders against the real pay wrapper; oracle at the instant of return",
-         "R16a Ok only with the preimage of a complete part; R16b Err only when no part pending/complete and no pay running; every outcome {complete,pending,failed,failed+warning,rpc error} at every point of a pay creating up to 2 (3 thorough) parts.", "Trusted base: SimNode pay/sendpay semantics (assumptions 1-4)."),
+ "C16": ("prov+e2e", "fault_enumeration", "depth-first enumeration of pay outcomes x part configurations x resolution orders against the real pay wrapper; oracle at the instant of return; real binary whose connection dies after pay was accepted",
+         "R16a Ok only with the preimage of a complete part; R16b Err only when no part pending/complete and no pay running; every outcome {complete,pending,failed,failed+warning,rpc error} at every point of a pay creating up to 2 (3 thorough) parts; plus E2E sessions through the real rpc.rs: connection lost after lightningd accepted pay, the part completing afterwards.", "Trusted base: SimNode pay/sendpay semantics (assumptions 1-4)."),
  "C17": ("driver+e2e", "exploration", "byte-stream chunking and handler-completion-order exploration of the real plugin driver over an in-memory pipe; real binary with trace logging under a fake lightningd",
          "R17a each request handed to its handler exactly once in decode order; R17b exactly one reply per id carrying that request's result; R17c output is complete JSON documents each followed by a blank line; chunks cut at every offset around separators, inside multi-byte UTF-8, 1-byte reads; up to 64 concurrent calls finished out of order; E2E adds concurrent log notifications through the shared writer.", "Trusted base: tokio duplex pipe semantics; the fake lightningd's own framing in E2E."),
  "C18": ("pure", "exploration", "reference codec oracle over exhaustive small inputs and structure-aware generated inputs; debug, release and Miri builds",
